@@ -19,7 +19,9 @@ def env_words(env):
 
 
 def gen_env(rng):
-    return {'amount': rng.choice([0, 1, 10**6, 2**62]), 'balance': rng.choice([0, 5, 10**9]), 'now': rng.choice([0, 1, 1700000000, -5]),
+    pname, ptype, eps = rng.choice(gen_interp.PARAMETERS)
+    return {'parameter': ptype, 'entrypoints': eps, 'parameter_name': pname,
+            'amount': rng.choice([0, 1, 10**6, 2**62]), 'balance': rng.choice([0, 5, 10**9]), 'now': rng.choice([0, 1, 1700000000, -5]),
             'level': rng.choice([1, 2, 10**7]), 'sender': rng.choice(gen_interp.ADDRS), 'source': rng.choice(gen_interp.ADDRS[:1] + gen_interp.ADDRS[2:4]),
             'self': rng.choice(gen_interp.ADDRS[1:2] + gen_interp.ADDRS[4:]), 'chain_id': rng.choice(gen_interp.CHAINS),
             'total_voting_power': rng.choice([0, 1, 500, 10**12]), 'min_block_time': rng.choice([1, 8, 15, 30]),
@@ -28,6 +30,28 @@ def gen_env(rng):
 
 
 ERR_KINDS = ('err', 'stuck', 'oof', 'rtfail', 'offguard')
+
+
+def for_model(code, env):
+    """the program as the Lean driver reads it: `SELF %ep` is written with the type of that entrypoint of the running contract's
+    parameter as an argument (the elaborated instruction — the real side looks it up in `context.parameter_expr`)"""
+    eps = env.get('entrypoints', {})
+
+    def walk(x):
+        if isinstance(x, list):
+            return [walk(y) for y in x]
+        if isinstance(x, dict) and 'prim' in x:
+            if x['prim'] == 'SELF':
+                ep = (x.get('annots') or ['%default'])[0][1:]
+                return {**x, 'args': [gen_interp.ty_mich(eps[ep])]}
+            if 'args' in x:
+                return {**x, 'args': [walk(a) for a in x['args']]}
+        return x
+    return walk(code)
+
+
+def prog_line(code, env):
+    return f'{FUEL} | {env_words(env)} | {mich.to_line(for_model(code, env))}'
 
 
 def parse_model(out):
@@ -65,7 +89,21 @@ def binarize(m):
 
 
 def norm_val(v):
-    return mich.normalize(binarize(v))
+    return mich.normalize(strip_default_ep(binarize(v)))
+
+
+def strip_default_ep(m):
+    """inside code rendered back (lambda values): `CONTRACT %default t` and `CONTRACT t` are the same instruction"""
+    if isinstance(m, list):
+        return [strip_default_ep(x) for x in m]
+    if isinstance(m, dict) and 'prim' in m:
+        out = dict(m)
+        if 'args' in out:
+            out['args'] = [strip_default_ep(a) for a in out['args']]
+        if out['prim'] == 'CONTRACT' and out.get('annots') == ['%default']:
+            del out['annots']
+        return out
+    return m
 
 
 def defined(spec_m):
@@ -129,13 +167,15 @@ def run(ctx, prop=PROP):
     if prop == 'C02':
         progs += collection_programs(g, ctx.rng, 1 if ctx.tier == 'quick' else 8)
     for i in range(n_prog):
+        env = gen_env(ctx.rng)
+        g.entrypoints = env['entrypoints']      # SELF %ep is typed by the parameter of the running contract
         code, st = g.program(ctx.rng.choice([3, 5, 8, 12, 16]))
-        progs.append((code, st, gen_env(ctx.rng)))
+        progs.append((code, st, env))
     progs += edge_programs(g, ctx.rng, ctx.tier)
     progs += boundary_programs(ctx.rng)
     lines = []
     for code, st, env in progs:
-        line = f'{FUEL} | {env_words(env)} | {mich.to_line(code)}'
+        line = prog_line(code, env)
         lines.append('impl ' + line)
         lines.append('spec ' + line)
         lines.append('specg ' + line)
@@ -314,7 +354,7 @@ def show_code(code):
 
 def deviates(ctx, prop, code, env):
     """(description, real, reference) if the real run of `code` deviates from a defined reference result, else None"""
-    line = f'{FUEL} | {env_words(env)} | {mich.to_line(code)}'
+    line = prog_line(code, env)
     out = ctx.model(['spec ' + line], driver=prop)
     if out is None:
         return None
